@@ -99,8 +99,14 @@ def free_vars(t):
                 e_vars(c, acc)
     elif k in ('arithl', 'arithr'):
         acc |= free_vars(t['b'])
-        for e in ([t['s']['all']] if 'all' in t['s'] else t['s']['map'].values()):
-            e_vars(e, acc)
+        sc = t['s']
+        if 'allt' in sc or 'mapt' in sc:
+            for cf in ([sc['allt']] if 'allt' in sc else sc['mapt'].values()):
+                for e in cf:
+                    e_vars(e, acc)
+        else:
+            for e in ([sc['all']] if 'all' in sc else sc['map'].values()):
+                e_vars(e, acc)
     elif k == 'aatom':
         acc |= free_vars(t['l']) | free_vars(t['r'])
     acc.discard('t')
@@ -253,60 +259,83 @@ def any_node(t, env, pred):
     return False
 
 
-def head_bad(t, env):
-    """the value `initial_values` picks (structurally first atom) is not where the instantiated pulse starts"""
+def head_ok(es, D):
+    """Wf.head_ok / table_head_ok: the voltage at time 0+ of one evaluated table channel is its first entry's value
+    (zero-length steps skipped; the first step of positive length starts at v0, or jumps to v0)."""
+    v0 = es[0][1]
+    prev = (F(0), v0)
+    for (tt, v, ip) in list(es) + [(D, es[-1][1], 'hold')]:
+        if tt - prev[0] <= 0:
+            prev = (tt, v)
+            continue
+        return v == v0 if ip == 'jump' else prev[1] == v0
+    return prev[1] == v0
+
+
+def nonempty(t, env):
+    """Spec: `denote t env` has at least one piece (all pieces have positive duration)"""
+    return pdur(t, env) > 0
+
+
+def g_ini(t, env):
+    """mirror of Wf.guard_C07_initial_head (the proven guard of finding initial-head-empty-or-jump); Corr.check_corr
+    compares this value with the Coq guard on every strict case"""
     k = t['k']
-    if pdur(t, env) == 0:
-        return True
     if k in ('table', 'point'):
-        return atom_head_differs(t, env)
+        D = table_dur(t, env)
+        return D <= 0 or all(head_ok(es, D) for es in chan_entries(t, env).values())
     if k in ('const', 'func'):
-        return False
-    if k == 'seq':
-        return head_bad(t['ps'][0], env)
-    if k == 'for':
-        r = rng_of(t, env)
-        return len(r) == 0 or head_bad(t['b'], dict(env, **{t['i']: F(r[0])}))
-    if k == 'map':
-        return head_bad(t['b'], map_env(t, env))
-    if k == 'multi':
-        return any(head_bad(s, env) for s in t['ps'])
-    if k == 'aatom':
-        return head_bad(t['l'], env) or head_bad(t['r'], env)
-    return head_bad(t['b'], env)
-
-
-def tail_bad(t, env):
-    """the structurally last atom is empty at these parameters"""
-    k = t['k']
-    if pdur(t, env) == 0:
         return True
-    if k in ('table', 'point', 'const', 'func'):
-        return False
     if k == 'seq':
-        return tail_bad(t['ps'][-1], env)
+        return nonempty(t['ps'][0], env) and g_ini(t['ps'][0], env)
     if k == 'for':
         r = rng_of(t, env)
-        return len(r) == 0 or tail_bad(t['b'], dict(env, **{t['i']: F(r[-1])}))
+        if len(r) == 0:
+            return True
+        e2 = dict(env, **{t['i']: F(r[0])})
+        return nonempty(t['b'], e2) and g_ini(t['b'], e2)
     if k == 'map':
-        return tail_bad(t['b'], map_env(t, env))
+        return g_ini(t['b'], map_env(t, env))
     if k == 'multi':
-        return any(tail_bad(s, env) for s in t['ps'])
+        return all(g_ini(s, env) for s in t['ps'])
     if k == 'aatom':
-        return tail_bad(t['l'], env) or tail_bad(t['r'], env)
-    return tail_bad(t['b'], env)
+        return g_ini(t['l'], env) and g_ini(t['r'], env)
+    return g_ini(t['b'], env)
+
+
+def g_tail(t, env):
+    """mirror of Wf.guard_C07_final_tail (the proven guard of finding final-tail-empty)"""
+    k = t['k']
+    if k in ('table', 'point', 'const', 'func'):
+        return True
+    if k == 'seq':
+        return nonempty(t['ps'][-1], env) and g_tail(t['ps'][-1], env)
+    if k == 'for':
+        r = rng_of(t, env)
+        if len(r) == 0:
+            return True
+        e2 = dict(env, **{t['i']: F(r[-1])})
+        return nonempty(t['b'], e2) and g_tail(t['b'], e2)
+    if k == 'map':
+        return g_tail(t['b'], map_env(t, env))
+    if k == 'multi':
+        return all(g_tail(s, env) for s in t['ps'])
+    if k == 'aatom':
+        return g_tail(t['l'], env) and g_tail(t['r'], env)
+    return g_tail(t['b'], env)
+
+
+def guard_flags(case):
+    """(g_ini, g_tail) at the case's parameters; (True, True) when the template cannot be evaluated (malformed stream)"""
+    env = {n: F(v) for n, v in case['params'].items()}
+    try:
+        return bool(g_ini(case['pt'], env)), bool(g_tail(case['pt'], env))
+    except (KeyError, ZeroDivisionError, ValueError, IndexError):
+        return True, True
 
 
 def loop_empty(t, env):
     return t['k'] == 'for' and len(rng_of(t, env)) == 0
-
-
-def loop_final_floor(t, env):
-    if t['k'] != 'for':
-        return False
-    r = rng_of(t, env)
-    a, o, s = r.start, r.stop, r.step
-    return len(r) > 0 and a + max((o - a) // s - 1, 0) * s != r[-1]
 
 
 def par_time_dependent(t, env):
@@ -321,13 +350,86 @@ def arith_over_par(t, env):
     return any_node(t['b'], env, lambda n, e: n['k'] == 'par')
 
 
+def negative_duration(t, env):
+    """a ConstantPT with a negative duration / a RepetitionPT with a negative count: accepted as an empty pulse"""
+    if t['k'] == 'const':
+        return ev(t['d'], env) < 0
+    if t['k'] == 'rep':
+        return ev(t['n'], env) < 0
+    return False
+
+
+def tdarith_cases(rng, n):
+    """ArithmeticPT with a time dependent scalar operand (polynomial of degree <= 1 in t, + - *) over an atomic template
+    (constant / polynomial function / table of linear segments), bare, inside a sequence and inside a for-loop whose
+    index enters the scalar.  Not modelled in Coq: these cases are judged by the Python oracle only."""
+    cases = []
+    for k in range(n):
+        cx = Ctx(rng)
+        chans = CHANS[:rng.choice([1, 2])]
+        idx = rng.random() < 0.4
+        if idx:
+            cx.idx_v.append('i1')
+        kind = rng.choice(['const', 'func', 'table'])
+        dur = rng.choice([C(1), C(2), V('T')])
+        if kind == 'const':
+            inner = {'k': 'const', 'd': dur, 'vals': {c: cx.volt() for c in chans}}
+        elif kind == 'func':
+            chans = chans[:1]
+            inner = {'k': 'func', 'c': chans[0], 'd': dur, 'coef': [cx.volt() for _ in range(rng.randint(1, 2))]}
+        else:
+            inner = {'k': 'table', 'ch': {c: [[C(0), cx.volt(), 'hold'], [['/', dur, C(2)], cx.volt(), rng.choice(['linear', 'jump', 'hold'])],
+                                              [dur, cx.volt(), 'linear']] for c in chans}}
+        op = rng.choice(['+', '-', '*'])
+        poly = lambda: [cx.volt(), rng.choice([C(1), C(F(1, 2)), C(-1), V('a')] + ([V('i1')] if idx else []))]
+        if rng.random() < 0.6:
+            sc = {'allt': poly()}
+        else:
+            sub = [c for c in chans if rng.random() < 0.6] or [chans[0]]
+            sc = {'mapt': {c: (poly() if rng.random() < 0.7 else [cx.volt()]) for c in sub}}
+        left = rng.random() < 0.7 or op == '/'
+        t = {'k': 'arithl' if left else 'arithr', 'b': inner, 'op': op, 's': sc}
+        x = rng.random()
+        if idx and 'i1' not in free_vars(t):        # ForLoopPT requires the index to occur in the body
+            cf = sc['allt'] if 'allt' in sc else sc['mapt'][sorted(sc['mapt'])[0]]
+            cf[0] = add(cf[0], V('i1'))
+        if idx:
+            a, o, s = rng.choice(RANGES)
+            t = {'k': 'for', 'i': 'i1', 'start': C(a), 'stop': C(o), 'step': C(s), 'b': t}
+        elif x < 0.3:
+            t = {'k': 'seq', 'ps': [t, {'k': 'const', 'd': C(1), 'vals': {c: cx.volt() for c in chans}}][::rng.choice([1, -1])]}
+        params = used_params(t, params_for(rng))
+        cases.append({'kind': 'tdarith', 'pt': t, 'params': params, 'pad': '1', 'src': 'time-dependent-scalar'})
+    return cases
+
+
 def classify(case, obs):
-    """id of the known finding that explains why the property fails on this case (None = unexplained)."""
+    """id of the known finding that explains why the property fails on this case (None = unexplained).
+    EXACT for the two end-point findings: a wrong initial / final value is explained only when the proven guard of the
+    finding (Wf.guard_C07_initial_head / guard_C07_final_tail, mirrored by g_ini / g_tail and cross-checked against the
+    Coq definitions in check_corr) is false at these parameters; under the guards the theorems C07_initial_guarded /
+    C07_final_guarded say the model is right, so a failure is a violation."""
     if 'crash' in obs or 'hang' in obs or obs.get('real') == 'err':
         return None
     env = {n: F(v) for n, v in case['params'].items()}
     pt = case['pt']
+    if case.get('kind') == 'tdarith':
+        # only the structural end-point findings apply (empty first / last part): the scalar does not change durations
+        try:
+            bad_int = any(obs['ch'][c]['sint'] != (obs['ch'][c].get('rint') if obs['real'] != 'none' else '0') for c in obs['chans'])
+            if bad_int:
+                return None
+            bad_ini = obs['real'] != 'none' and any(obs['ch'][c]['sini'] != obs['ch'][c]['r0'] for c in obs['chans'])
+            bad_fin = obs['real'] != 'none' and any(obs['ch'][c]['sfin'] != obs['ch'][c].get('rend') for c in obs['chans'])
+            ok_i, ok_t = g_ini(pt, env), g_tail(pt, env)
+            if (bad_ini and ok_i) or (bad_fin and ok_t):
+                return None
+            return 'initial-head-empty-or-jump' if bad_ini else 'final-tail-empty' if bad_fin else None
+        except (KeyError, ZeroDivisionError, ValueError, IndexError):
+            return None
     try:
+        if any_node(pt, env, negative_duration):
+            return 'negative-duration-empty'
         if any_node(pt, env, arith_over_par):
             return 'arith-over-parallel-order'
         if any_atom(pt, env, constant_detection_wrong):
@@ -342,16 +444,15 @@ def classify(case, obs):
             bad_ini |= o['sini'] != o['r0']
         if bad_int:
             return None
-        if bad_ini and not head_bad(pt, env):
+        ok_ini, ok_tail = g_ini(pt, env), g_tail(pt, env)
+        if bad_ini and ok_ini:
             return None
         if bad_ini:
             return 'initial-head-empty-or-jump'
-        # what is left is the end value (needs the denotation; decided in Coq): explained only by these features
-        if any_node(pt, env, loop_final_floor):
-            return 'for-final-floor'
-        if tail_bad(pt, env):
+        # what is left is the end value (needs the denotation; decided in Coq): explained only outside the guard
+        if not ok_tail:
             return 'final-tail-empty'
-    except (KeyError, ZeroDivisionError, ValueError):
+    except (KeyError, ZeroDivisionError, ValueError, IndexError):
         return None
     return None
 
@@ -677,19 +778,63 @@ def random_case(rng, depth):
     raise RuntimeError('generator could not build a consistent template')
 
 
-def range_sweep(lim):
-    """every range over small start/stop/step, with an index dependent body (voltage and duration)"""
+def _sweep_body(nonneg):
+    if nonneg:
+        return {'k': 'table', 'ch': {'A': [[C(0), V('i1'), 'hold'], [C(1), add(V('i1'), C(1)), 'linear'],
+                                           [add(C(1), mul(V('i1'), C(F(1, 2)))), V('a'), 'hold']]}}
+    return {'k': 'const', 'd': C(F(1, 2)), 'vals': {'A': mul(V('i1'), V('a'))}}
+
+
+def _wrap(kind, loop, nonneg):
+    """put the for-loop `loop` (index i1, channel A) under each loop-carrying class"""
+    tail = {'k': 'const', 'd': C(F(1, 2)), 'vals': {'A': C(2)}}
+    if kind == 'bare':
+        return loop, {}
+    if kind == 'seq-first':
+        return {'k': 'seq', 'ps': [loop, tail]}, {}
+    if kind == 'seq-last':
+        return {'k': 'seq', 'ps': [tail, loop]}, {}
+    if kind == 'rep':
+        return {'k': 'rep', 'n': C(2), 'b': loop}, {}
+    if kind == 'map':
+        return {'k': 'map', 'b': loop, 'pm': {'a': add(V('b'), C(1))}, 'cm': [['A', 'D']]}, {'b': '1/2'}
+    if kind == 'par':
+        return {'k': 'par', 'b': loop, 'ov': {'B': [V('a')]}}, {}
+    if kind == 'arithl':
+        return {'k': 'arithl', 'b': loop, 'op': '-', 's': {'all': V('a')}}, {}
+    if kind == 'arithr':
+        return {'k': 'arithr', 'b': loop, 'op': '-', 's': {'map': {'A': C(1)}}}, {}
+    if kind == 'outer-for':      # the swept loop is the body of another loop whose index scales the voltage
+        return {'k': 'for', 'i': 'i2', 'start': C(1), 'stop': C(3), 'step': C(1),
+                'b': {'k': 'arithl', 'b': loop, 'op': '*', 's': {'all': V('i2')}}}, {}
+    raise ValueError(kind)
+
+
+WRAPPERS = ['bare', 'seq-first', 'seq-last', 'rep', 'map', 'par', 'arithl', 'arithr', 'outer-for']
+
+
+def range_sweep(lim, lo=-1, wrappers=('bare',), steps=(1, 2, 3, -1, -2, -3)):
+    """every range over small start/stop/step, with an index dependent body (voltage and, for non-negative indices,
+    duration), under every requested loop-carrying wrapper"""
     cases = []
-    for a, o, s in itertools.product(range(-1, lim + 1), range(-1, lim + 2), [1, 2, 3, -1, -2, -3]):
+    for a, o, s in itertools.product(range(lo, lim + 1), range(lo, lim + 2), steps):
         nonneg = a >= 0 and all(x >= 0 for x in range(a, o, s))
-        if nonneg:
-            body = {'k': 'table', 'ch': {'A': [[C(0), V('i1'), 'hold'], [C(1), add(V('i1'), C(1)), 'linear'],
-                                               [add(C(1), mul(V('i1'), C(F(1, 2)))), V('a'), 'hold']]}}
-        else:
-            body = {'k': 'const', 'd': C(F(1, 2)), 'vals': {'A': mul(V('i1'), V('a'))}}
-        t = {'k': 'for', 'i': 'i1', 'start': C(a), 'stop': C(o), 'step': C(s), 'b': body}
-        cases.append({'kind': 'pulse', 'pt': t, 'params': {'a': '3/4'}, 'pad': '1', 'shapes': sorted(set(range_shape(a, o, s))),
-                      'src': 'range-sweep'})
+        for w in wrappers:
+            loop = {'k': 'for', 'i': 'i1', 'start': C(a), 'stop': C(o), 'step': C(s), 'b': _sweep_body(nonneg)}
+            t, extra = _wrap(w, loop, nonneg)
+            params = dict({'a': '3/4'}, **extra)
+            cases.append({'kind': 'pulse', 'pt': t, 'params': used_params(t, params), 'pad': '1',
+                          'shapes': sorted(set(range_shape(a, o, s))), 'src': 'range-sweep:' + w})
+    return cases
+
+
+def symbolic_range_sweep(lim):
+    """the same ranges with all three bounds parametrised (exercises sign(step), ceiling and floor symbolically)"""
+    cases = []
+    for a, o, s in itertools.product(range(-lim, lim + 1), range(-lim, lim + 1), (1, 2, 3, -1, -2, -3)):
+        loop = {'k': 'for', 'i': 'i1', 'start': V('n'), 'stop': V('m'), 'step': V('k'), 'b': _sweep_body(False)}
+        cases.append({'kind': 'pulse', 'pt': loop, 'params': {'a': '3/4', 'n': str(a), 'm': str(o), 'k': str(s)}, 'pad': '1',
+                      'shapes': sorted(set(range_shape(a, o, s))), 'src': 'range-sweep:symbolic'})
     return cases
 
 
@@ -724,6 +869,10 @@ def handmade():
     # missing parameter
     cs.append({'kind': 'pulse', 'pt': {'k': 'const', 'd': V('T'), 'vals': {'A': V('a')}}, 'params': {'T': '1'}, 'pad': '1',
                'src': 'malformed'})
+    # negative duration / negative repetition count: accepted as an empty pulse, symbolic duration/integral negative
+    cs.append({'kind': 'pulse', 'pt': {'k': 'const', 'd': V('T'), 'vals': {'A': C(1)}}, 'params': {'T': '-1/2'}, 'pad': '1',
+               'src': 'hand'})
+    cs.append({'kind': 'pulse', 'pt': {'k': 'rep', 'n': V('n'), 'b': full}, 'params': {'n': '-1'}, 'pad': '1', 'src': 'hand'})
     # simultaneous substitution through a mapping (swap)
     cs.append({'kind': 'pulse', 'pt': {'k': 'map', 'b': {'k': 'table', 'ch': {'A': [[C(0), V('a'), 'hold'], [C(1), V('b'), 'linear']]}},
                                        'pm': {'a': V('b'), 'b': V('a')}, 'cm': [['A', 'D']]},
@@ -733,11 +882,16 @@ def handmade():
 
 def gen_cases(rng, tier, ctx):
     cases = handmade()
-    n = {'quick': 420, 'thorough': 4000}[tier]
-    sweep = range_sweep(3 if tier == 'quick' else 6)
+    n = {'quick': 400, 'thorough': 4000}[tier]
     if tier == 'quick':
-        sweep = [c for c in sweep if rng.random() < 0.5]
+        sweep = [c for c in range_sweep(3) if rng.random() < 0.4]
+        sweep += [c for c in range_sweep(4, -4, WRAPPERS[1:]) if rng.random() < 0.012]
+        sweep += [c for c in symbolic_range_sweep(4) if rng.random() < 0.04]
+    else:
+        # exhaustive: |start|, |stop| <= 4 (stop up to 5), step in +-{1,2,3}, under every loop-carrying class
+        sweep = range_sweep(4, -4, WRAPPERS) + range_sweep(7, -1, ('bare',)) + symbolic_range_sweep(4)
     cases += sweep
+    cases += tdarith_cases(rng, 40 if tier == 'quick' else 600)
     for k in range(n):
         depth = 1 if k % 7 == 0 else 2 if k % 3 == 0 else rng.choice([3, 3, 4])
         c = random_case(rng, depth)
